@@ -8,6 +8,7 @@ package main
 import (
 	"fmt"
 	"go/types"
+	"runtime/debug"
 	"sync"
 
 	"golang.org/x/tools/go/ssa"
@@ -55,6 +56,11 @@ func (s *Scheduler) runMain(f func()) {
 				return // outcome recorded by the aborting thread
 			}
 			if !s.haveOutcome {
+				switch r.(type) {
+				case nil, *GoPanic, *pathEnd:
+				default:
+					r = &EngineError{msg: fmt.Sprintf("%v\n%s", r, debug.Stack())}
+				}
 				s.outcome = r
 				s.haveOutcome = true
 			}
